@@ -408,6 +408,11 @@ def _loop_rules(ck: Check, prog: Program, ci: ClassInfo, schema: FuncInfo) -> No
 
 
 def _ref_closed(ck: Check, prog: Program, ci: ClassInfo, funcs: List[FuncInfo]) -> None:
+    # a registration block moved into a private helper is looked at as part of the extracting function
+    from ..inline import inlined_program
+    with_rt = [f.qualname for f in funcs if any(isinstance(x, ast.Call) and any(kw.arg == 'ref_template' for kw in x.keywords) for x in walk_own(f.node))]
+    prog = inlined_program(prog, with_rt)
+    funcs = [prog.func(q) for q in with_rt]
     n = 0
     for f in funcs:
         for x in walk_own(f.node):
